@@ -280,7 +280,7 @@ def api_witness(prop: str, func: str):
     from . import bounded
 
     if ".rules_block." in func or "StateBlock" in func:
-        for check, opts in (("vf.checks:no_exception", {"exception_is_failure": True, "timeout_is_failure": True}), ("vf.checks:block_contracts", {})):
+        for check, opts in (("vf.checks:no_exception", {"exception_is_failure": True, "timeout_is_failure": True}), ("vf.checks:container_contracts", {})):
             b = bounded.run(check, "lines", 2, ["commonmark", "js-default", "cm-heading", "cm-code"], func, "api witness search", "", wrapped=True, **opts)
             short = func.split(".")[-1]
             for f in b.failures:
